@@ -535,14 +535,29 @@ pub fn coordinated_fault(bytes: &[u8], lay: &Layout, kind: usize, variant: usize
             let lenf = find(lay, "ood.lagrange_len")?;
             let states = fields_with_prefix(lay, "ood.trace_state[");
             let esz = states.first()?.len;
-            let c = [1usize, 2, 4, 11, 255][variant % 5];
+            // sizes: a few fixed ones and the one size a Lagrange column of THIS trace would have
+            // (log2(trace length) + 1); variants 8..15 additionally drop the last column's two
+            // states from the ordinary frame, as if the last auxiliary column were the Lagrange
+            // one - every byte is then consumed by the parser
+            let log_n = get(bytes, find(lay, "ctx.log_trace_len")?.off, 1) as usize;
+            let c = [log_n + 1, 1, 2, 4, 11, 255, log_n, log_n + 2][variant % 8];
             let mut content = vec![c as u8];
             let src_start = states.first()?.off;
             let avail = states.len() * esz;
             for i in 0..c * esz {
                 content.push(bytes[src_start + i % avail.max(1)]);
             }
-            Some((format!("coordinated: Lagrange kernel frame of {c} elements supplied"), replace_blob(bytes, lenf, &content)))
+            let mut out = replace_blob(bytes, lenf, &content);
+            let mut what = format!("coordinated: Lagrange kernel frame of {c} elements supplied");
+            if variant % 16 >= 8 && states.len() >= 4 {
+                let tl = find(lay, "ood.trace_states_len")?;
+                let cur = get(&out, tl.off, 2) as usize;
+                let start = tl.off + 2;
+                let kept = out[start..start + cur - 2 * esz].to_vec();
+                out = replace_blob(&out, tl, &kept);
+                what.push_str(", the last column's two states dropped from the ordinary frame");
+            }
+            Some((what, out))
         },
         2 => {
             // one more / one fewer opened row in EVERY query set, num_unique_queries adjusted
